@@ -197,8 +197,125 @@ where
     }
 }
 
+/// Ligero with several polynomials in one opening (univariate: of different sizes): the verifier's outer loop.
+/// The transcript of every run is split per polynomial (one block of well-formedness challenges, then t index squeezes).
+fn ligmulti<L, P>(c: &Case, out: &mut Out, polys: Vec<P>, z: P::Point, pp: L::LinCodePCParams, rho: usize)
+where
+    P: ark_poly::Polynomial<Fr> + Clone,
+    P::Point: Clone,
+    L: LinearEncode<Fr, MTConfig, P, ColH<Fr>>,
+    L::LinCodePCParams: Clone,
+{
+    use ark_poly_commit::linear_codes::{LinCodeParametersInfo, LinearCodePCS};
+    use ark_poly_commit::LabeledPolynomial;
+    type PCS<L, P> = LinearCodePCS<L, Fr, P, MTConfig, ColH<Fr>>;
+    let (ck, vk) = (pp.clone(), pp.clone());
+    let wf = ck.check_well_formedness();
+    out.input("wf", &[if wf { "1".into() } else { "0".into() }]);
+    let n = polys.len();
+    let lps: Vec<LabeledPolynomial<Fr, P>> = polys.iter().enumerate().map(|(i, p)| LabeledPolynomial::new(format!("p{:03}", i), p.clone(), None, None)).collect();
+    let cmr = guard_any(|| PCS::<L, P>::commit(&ck, lps.iter(), None));
+    out.obs1("commit", "S", cmr.class());
+    let (cm, st) = match cmr.ok() { Some(x) => x, None => return };
+    let dash = |v: Vec<String>| if v.is_empty() { vec!["-".to_string()] } else { v };
+    for i in 0..n {
+        let (n_rows, n_cols, n_ext) = lh::commitment_metadata(cm[i].commitment());
+        out.input(&format!("dims.{}", i), &[n_rows.to_string(), n_cols.to_string(), n_ext.to_string()]);
+        let dom = GeneralEvaluationDomain::<Fr>::new(n_cols * rho).unwrap();
+        out.input(&format!("omega.{}", i), &[f_to_str(&dom.group_gen())]);
+        out.input(&format!("coeffs.{}", i), &dash(fs_to_strs(&L::poly_to_vec(&polys[i]))));
+    }
+    out.input("point_vec", &dash(fs_to_strs(&L::point_to_vec(z.clone()))));
+    let mut ps = RecSponge::<Fr>::fresh();
+    let opr = guard_any(|| PCS::<L, P>::open(&ck, lps.iter(), cm.iter(), &z, &mut ps, st.iter(), None));
+    out.obs1("open", "S", opr.class());
+    let pf = match opr.ok() { Some(x) => x, None => return };
+    let ts: Vec<usize> = pf.iter().map(|p| lh::proof_parts(p).0.len()).collect();
+    // per-polynomial split of a transcript
+    let tape = |sp: &RecSponge<Fr>, pre: &str, out: &mut Out| {
+        let mut fields: Vec<&Vec<String>> = vec![];
+        let mut bytes: Vec<&Vec<u8>> = vec![];
+        for e in &sp.log {
+            match e { Ev::SqBytes(_, b) => bytes.push(b), Ev::SqField(_, v) => fields.push(v), _ => {} }
+        }
+        let mut bi = 0;
+        for i in 0..n {
+            let r: Vec<String> = if wf { fields.get(i).map(|v| (*v).clone()).unwrap_or_default() } else { vec![] };
+            out.input(&format!("{}r.{}", pre, i), &if r.is_empty() { vec!["-".into()] } else { r });
+            let mut k = 0;
+            while k < ts[i] && bi < bytes.len() {
+                out.input(&format!("{}sq.{}.{}", pre, i, k), &bytes[bi].iter().map(|x| x.to_string()).collect::<Vec<_>>());
+                k += 1; bi += 1;
+            }
+            out.input(&format!("{}nsq.{}", pre, i), &[k.to_string()]);
+        }
+    };
+    tape(&ps, "p.", out);
+    let parts = |name: &str, p: &ark_poly_commit::linear_codes::LinCodePCProof<Fr, MTConfig>, as_input: bool, out: &mut Out| {
+        let (paths, v, cols, wfv) = lh::proof_parts(p);
+        let items: Vec<(String, &str, Vec<String>)> = vec![
+            (format!("{}v", name), "F", dash(fs_to_strs(v))),
+            (format!("{}wf", name), "F", match wfv { Some(w) => dash(fs_to_strs(w)), None => vec!["none".into()] }),
+            (format!("{}leaf_idx", name), "N", dash(paths.iter().map(|q| q.leaf_index.to_string()).collect())),
+            (format!("{}col_lens", name), "N", dash(cols.iter().map(|x| x.len().to_string()).collect())),
+            (format!("{}cols", name), "F", dash(cols.iter().flat_map(|x| fs_to_strs(x)).collect())),
+        ];
+        for (k, t, v) in items { if as_input { out.input(&k, &v); } else { out.obs(&k, t, &v); } }
+    };
+    out.obs1("nproofs", "N", pf.len().to_string());
+    for i in 0..pf.len() { parts(&format!("pf.{}.", i), &pf[i], false, out); }
+    let vals: Vec<Fr> = polys.iter().map(|p| p.evaluate(&z)).collect();
+    out.obs("values", "F", &fs_to_strs(&vals));
+    let mut vs = RecSponge::<Fr>::fresh();
+    let d = guard_any(|| PCS::<L, P>::check(&vk, cm.iter(), &z, vals.clone(), &pf, &mut vs, None));
+    out.obs1("check", "S", decision(&d));
+    tape(&vs, "v.", out);
+    // a false value at one position
+    let bp = c.usize1("bad_pos") % n;
+    let delta: Fr = f_from_str(c.str1("delta"));
+    let mut bad = vals.clone();
+    bad[bp] += delta;
+    let mut vs2 = RecSponge::<Fr>::fresh();
+    let d2 = guard_any(|| PCS::<L, P>::check(&vk, cm.iter(), &z, bad, &pf, &mut vs2, None));
+    out.obs1("check_bad", "S", decision(&d2));
+    tape(&vs2, "b.", out);
+    // mutated proof arrays: kind, which polynomial, second index
+    for (k, toks) in c.indexed("mut") {
+        let kind = toks[0].as_str();
+        let args: Vec<String> = toks[1..].to_vec();
+        let m = match crate::schemes::mutate_lincode_proof(kind, &pf, &args) { Some(m) => m, None => { out.input(&format!("m{}.skip", k), &["1".into()]); continue } };
+        let which = args.get(0).and_then(|x| x.parse::<usize>().ok()).unwrap_or(0) % pf.len();
+        out.input(&format!("m{}.n", k), &[m.len().to_string()]);
+        out.input(&format!("m{}.which", k), &[which.to_string()]);
+        out.input(&format!("m{}.intact", k), &[if kind == "path_index" || kind == "path_node" { "0".into() } else { "1".into() }]);
+        for i in 0..m.len() { parts(&format!("m{}.{}.", k, i), &m[i], true, out); }
+        let mut ms = RecSponge::<Fr>::fresh();
+        let dm = guard_any(|| PCS::<L, P>::check(&vk, cm.iter(), &z, vals.clone(), &m, &mut ms, None));
+        out.obs1(&format!("mut.{}", k), "S", decision(&dm));
+        tape(&ms, &format!("m{}.", k), out);
+    }
+}
+
 pub fn run(c: &Case, out: &mut Out) {
     match c.str1("sub") {
+        "ligmulti" => {
+            use crate::pc::Adapter;
+            use crate::schemes::{LigeroMLA, LigeroUniA};
+            let pp = crate::schemes::ligero_params(c).expect("lig parameters");
+            let rho = c.usizes("lig")[1];
+            let n = c.usize1("n");
+            match c.str1("scheme") {
+                "ligero_ml" => {
+                    let nv = Some(c.usize1("num_vars"));
+                    let polys = (0..n).map(|i| LigeroMLA::make_poly(c.get(&format!("poly.{}", i)), nv)).collect();
+                    ligmulti::<MultilinearLigero<Fr, MTConfig, SparseMultilinearExtension<Fr>, ColH<Fr>>, SparseMultilinearExtension<Fr>>(c, out, polys, LigeroMLA::make_point(c.get("pt")), pp, rho)
+                }
+                _ => {
+                    let polys = (0..n).map(|i| LigeroUniA::make_poly(c.get(&format!("poly.{}", i)), None)).collect();
+                    ligmulti::<UnivariateLigero<Fr, MTConfig, UniPoly, ColH<Fr>>, UniPoly>(c, out, polys, LigeroUniA::make_point(c.get("pt")), pp, rho)
+                }
+            }
+        }
         "ligflow" => {
             use crate::pc::Adapter;
             use crate::schemes::{LigeroMLA, LigeroUniA};
